@@ -227,22 +227,26 @@ func c15Enum(thorough bool, f func(k c15Case)) {
 	for _, h := range append(append([][]byte{}, headers...), intact...) {
 		// an intact header over a body whose intervals sit at every offset around the clock (damaged base intervals)
 		decl := bodyLens(h)[3]
-		for delta := -9; delta <= 9; delta++ {
-			for _, firstOnly := range []bool{false, true} {
-				b := append(append([]byte{}, h...), make([]byte, decl)...)
-				k := (len(h) - 16) / 12
-				for a := 0; a < k; a++ {
-					off := int(binary.BigEndian.Uint32(h[16+12*a:]))
-					n := int(binary.BigEndian.Uint32(h[16+12*a+8:]))
-					for j := 0; j < n; j++ {
-						if firstOnly && j > 0 {
-							break
+		// ... around the clock, and around the instants half the 32-bit range away from it (where differences of
+		// timestamps change sign), and around both ends of the range
+		for _, center := range []int64{1700000000, 1700000000 + 1<<31, 9, 1<<32 - 10} {
+			for delta := -9; delta <= 9; delta++ {
+				for _, firstOnly := range []bool{false, true} {
+					b := append(append([]byte{}, h...), make([]byte, decl)...)
+					k := (len(h) - 16) / 12
+					for a := 0; a < k; a++ {
+						off := int(binary.BigEndian.Uint32(h[16+12*a:]))
+						n := int(binary.BigEndian.Uint32(h[16+12*a+8:]))
+						for j := 0; j < n; j++ {
+							if firstOnly && j > 0 {
+								break
+							}
+							binary.BigEndian.PutUint32(b[off+12*j:], uint32(center+int64(delta)))
+							binary.BigEndian.PutUint64(b[off+12*j+4:], math.Float64bits(1.5))
 						}
-						binary.BigEndian.PutUint32(b[off+12*j:], uint32(1700000000+delta))
-						binary.BigEndian.PutUint64(b[off+12*j+4:], math.Float64bits(1.5))
 					}
+					emit("open", b)
 				}
-				emit("open", b)
 			}
 		}
 	}
